@@ -54,7 +54,7 @@ def _histories(ctx, described):
     for d in described:
         base = {"property": "C03", "cls": d["cls"], "target": d["target"]}
         for pre in (False, True):
-            for attr, nvals, _ in d["attrs"]:
+            for attr, nvals, _, _ in d["attrs"]:
                 for vi in range(nvals):
                     if ctx.quick and pre and vi > 0:
                         continue  # quick: the re-loaded variant with the first value of each domain only
@@ -65,7 +65,7 @@ def _histories(ctx, described):
         if ctx.quick and key not in QUICK_PAIR_TARGETS:
             continue
         base = {"property": "C03", "cls": d["cls"], "target": d["target"]}
-        names = [a for a, _, _ in d["attrs"]]
+        names = [a for a, _, _, _ in d["attrs"]]
         variants = [(False, False)] if ctx.quick else [(False, False), (True, False)]
         if key in MID_TARGETS and not ctx.quick:
             variants.append((False, True))
@@ -73,7 +73,20 @@ def _histories(ctx, described):
             for a, b in itertools.permutations(names, 2):
                 pairs.append(dict(base, ops=[[a, 0], [b, 0]], pre=pre, mid=mid))
     pairs.sort(key=lambda h: (h["pre"] + h["mid"],))
-    return singles, pairs
+    # the SAME attribute assigned twice with two different values of its domain (int then fractional
+    # float, None then a value, 2-row then 3-row array ...), plain and with a re-open in between
+    same = []
+    for d in described:
+        base = {"property": "C03", "cls": d["cls"], "target": d["target"]}
+        for attr, nvals, _, numeric in d["attrs"]:
+            if ctx.quick and not numeric:
+                continue  # quick: numeric scalars only; thorough: every attribute
+            variants = [(False, False), (False, True)] if ctx.quick else [(False, False), (True, False), (False, True)]
+            for pre, mid in variants:
+                for i, j in itertools.permutations(range(nvals), 2):
+                    same.append(dict(base, ops=[[attr, i], [attr, j]], pre=pre, mid=mid))
+    same.sort(key=lambda h: (h["pre"] + h["mid"],))
+    return singles, same + pairs
 
 
 def run(ctx):
@@ -132,6 +145,7 @@ def run(ctx):
         histories=len(cases),
         singles=len(singles),
         ordered_pairs=len(pairs),
+        same_attribute_pairs=sum(1 for h in pairs if h["ops"][0][0] == h["ops"][1][0]),
         assignments_accepted=n_accepted,
         assignments_refused=n_refused,
         concrete_classes=n_classes,
